@@ -192,10 +192,11 @@ def load_findings():
     return json.load(open(p)).get('findings', [])
 
 
-def finding_for(findings, pid, ob_kind, ob_id):
-    """a listed, unfixed finding that covers this failed obligation"""
+def finding_for(findings, pid, ob_kind, ob_id, also=()):
+    """a listed, unfixed finding that covers this failed obligation (`also`: the properties a dependency unit's
+    obligations were proved for - a finding listed under one of them covers the same obligation here)"""
     for f in findings:
-        if f.get('status') != 'known' or f.get('property') != pid:
+        if f.get('status') != 'known' or (f.get('property') != pid and f.get('property') not in also):
             continue
         if f.get('kind') == ob_kind and re.search(f.get('match', '$^'), ob_id):
             return f
@@ -333,7 +334,7 @@ def main():
             elif e['class'] == 'verification':
                 violations.append({'obligation': obligation_name(u, e), 'backend': 'verus', 'kind': 'verus',
                                    'message': e['msg'] + (' [dependency obligation: this property\'s units assume the contract of this function]' if dep else ''),
-                                   'clause': e['text'], 'function': e['function'],
+                                   'clause': e['text'], 'function': e['function'], 'unit': u,
                                    'generated_line': e['line'], 'unit_file': info['generated']})
             else:
                 noverdict.append('unit %s: %s (line %s)' % (u, e['msg'], e['line']))
@@ -394,7 +395,8 @@ def main():
     reported = []
     known_lines = []
     for v in violations:
-        f = finding_for(findings, pid, v['kind'], v['obligation'] + ' ' + v.get('message', '') + ' ' + v.get('clause', ''))
+        f = finding_for(findings, pid, v['kind'], v['obligation'] + ' ' + v.get('message', '') + ' ' + v.get('clause', ''),
+                        also=accept.get(v.get('unit'), ()))
         if f is not None:
             known_lines.append('KNOWN-FINDING: property=%s %s' % (pid, f['what']))
             v['known_finding'] = f['id']
